@@ -218,7 +218,9 @@ def nullable_run(tier='quick'):
     nl = A.nullable_run(fns, table, comb)
     tp = A.top_run(fns, table, comb, nl['N'])
     nf = A.no_failure_run(fns)
-    res = _pack('gvc.nullable', [nl, tp, nf], t0, samples=[
+    lr = A.leftrec_run(fns, table, comb, nl['N'])
+    res = _pack('gvc.nullable', [nl, tp, nf, lr], t0, samples=[
+        dict(obligation='every left-recursive cycle passes through a #[recursive_parser] production', productions_without_the_attribute=lr['checked'], with_it=lr['n_recursive']),
         dict(obligation='manyok', checked=nl['checked'], nullable_productions=sorted(n for n, v in nl['N'].items() if v)[:12], fixpoint_rounds=nl['rounds']),
         dict(obligation='top-level shape', rule='source_text = many0(white_space) .. many_till(description, eof); *_incomplete = same with many0(description)')])
     return res
